@@ -67,8 +67,15 @@ def c13(tier='quick', seed=0):
         cases.append({n: rand_expr(rng, rng.randint(0, 3), ['role:r', 'rule:' + rng.choice(use + ['zzz'])] + ['rule:' + rng.choice(use)])
                       for n in use})
     sys.setrecursionlimit(max(sys.getrecursionlimit(), 3000))
+    # a usable default rule answers for an unknown POLICY at enforcement time; for validation a reference to a name that
+    # is not defined is undefined all the same: every third case also defines the default rule (by the option's default
+    # name, or through the constructor argument)
+    with_default = set(range(0, len(cases), 3))
     for ci, rules_text in enumerate(cases):
-        e = mk_enforcer()
+        if ci in with_default:
+            rules_text = dict(rules_text, default=rng.choice(['@', 'role:dflt', '!']))
+            cases[ci] = rules_text
+        e = mk_enforcer(default_rule=('default' if ci % 2 else None))
         e.set_rules(policy.Rules.from_dict(rules_text))
         undefined, cyclic = graph_problem(rules_text)
         want_ok = not (undefined or cyclic)
@@ -331,10 +338,22 @@ def c17(tier='quick', seed=0):
         want = {d.name: d.check_str for d in defaults}
         with warnings.catch_warnings():
             warnings.simplefilter('ignore')
-            got = outcome(lambda: list(generator._sort_and_format_by_section({'ns': defaults}, 'yaml', exclude_deprecated=excl)))
+            # a namespace hands over its defaults as a list, a tuple or a one-shot iterable (itertools.chain is what
+            # nova, cinder and keystone return)
+            shape = rng.choice(['list', 'tuple', 'chain', 'generator'])
+
+            def as_shape():
+                if shape == 'tuple':
+                    return tuple(defaults)
+                if shape == 'chain':
+                    return itertools.chain(defaults[:1], defaults[1:])
+                if shape == 'generator':
+                    return (d for d in defaults)
+                return list(defaults)
+            got = outcome(lambda: list(generator._sort_and_format_by_section({'ns': as_shape()}, 'yaml', exclude_deprecated=excl)))
         bad = None
         if got[0] != 'ret':
-            bad = 'sample generation raised %s' % got[1]
+            bad = 'sample generation raised %s (defaults handed over as a %s)' % (got[1], shape)
         else:
             text = ''.join(got[1])
             try:
@@ -356,18 +375,18 @@ def c17(tier='quick', seed=0):
                 except Exception as ex:  # noqa
                     un = 'unparseable (%s)' % type(ex).__name__
                 if un != want:
-                    bad = 'uncommented sample gives %r, defaults are %r' % (un, want)
+                    bad = 'uncommented sample gives %r, defaults (handed over as a %s) are %r' % (un, shape, want)
             if not bad:
                 with warnings.catch_warnings():
                     warnings.simplefilter('ignore')
-                    js = list(generator._sort_and_format_by_section({'ns': defaults}, 'json'))
+                    js = list(generator._sort_and_format_by_section({'ns': as_shape()}, 'json'))
                 jtext = '{\n    ' + ',\n    '.join(js) + '\n}\n'
                 try:
                     jl = json.loads(jtext)
                 except Exception as ex:  # noqa
                     jl = 'unparseable (%s)' % type(ex).__name__
                 if jl != want:
-                    bad = 'JSON sample gives %r, defaults are %r' % (jl, want)
+                    bad = 'JSON sample gives %r, defaults (handed over as a %s) are %r' % (jl, shape, want)
         R.case(it, bad, sample=[d.name for d in defaults])
         if R.full:
             break
@@ -465,6 +484,9 @@ def c18(tier='quick', seed=0):
             file_map['unknown:x'] = rng.choice(values)
         if rng.random() < 0.5:
             file_map['svc:long'] = rng.choice([LONG, LONG, LONG.replace(' or ', ' OR '), 'role:a'])
+        if rng.random() < 0.4:
+            # differs from the registered default 'role:c' only in letter case, in a position where case matters
+            file_map['helper'] = rng.choice(['Role:c', 'role:c', 'ROLE:C', 'rule:Helper2'])
         names = sorted(set(new_names) | {n for n in file_map if n != 'svc:old'})
         before = decisions(file_map, defaults, names, role_sets)
         # ---- policy upgrade
